@@ -55,6 +55,14 @@ def run(ctx):
         names = Names()
         vars_ = gen.add_data_vars(rng, ds, d.spec['kinds'], n_extra_max=2)
         ds['nogrid'] = xarray.DataArray(numpy.arange(6.0).reshape(2, 3), dims=['time_x', 'k_x'])
+        fd_ = list(d.spec['kinds']['face'])
+        if len(fd_) == 2 and len(vars_) % 2 == 0:
+            # variables along one of the two surface dimensions only (the area of a row of cells, a zonal mean per time step):
+            # they use a selected dimension, so they are selected along it
+            ds['row_area'] = xarray.DataArray(numpy.arange(ds.sizes[fd_[0]], dtype='f8') + 700, dims=[fd_[0]])
+            ds['zonal_mean'] = xarray.DataArray(numpy.arange(2 * ds.sizes[fd_[1]], dtype='f8').reshape(2, -1) + 800, dims=['time_z', fd_[1]])
+            vars_ = list(vars_) + [('row_area', 'face', [fd_[0]]), ('zonal_mean', 'face', ['time_z', fd_[1]])]
+            ctx.count('variables along one surface dimension only')
         ems = ds.ems
         enums = all_kind_enums(ems)
         shapes = expected_shapes(d)
@@ -261,7 +269,7 @@ def run(ctx):
                                         break
                                 else:
                                     idx = numpy.unravel_index(f.v, [ds.sizes[g] for g in gdims])
-                                    want = src.isel({g: int(ix) for g, ix in zip(gdims, idx)}).values
+                                    want = src.isel({g: int(ix) for g, ix in zip(gdims, idx) if g in src.dims}).values
                                     if not nan_equal(got, want):
                                         bad = f'{cname}: {nm} row {row} is not the value stored at cell {f.v}'
                                         break
